@@ -702,6 +702,26 @@ pub fn drive_automata(a: &Args) {
             }
         }
     }
+    // two states that cut three ADJACENT letters differently (every assignment of the three letters to two targets,
+    // for both states), intervals given merged: nested / aligned / gap-spanning interval lists within one automaton
+    for qa in 0..8u32 {
+        for pa in 0..8u32 {
+            for dflt_style in [3usize, 1] {
+                if dflt_style == 1 && (qa + pa) % 4 != 0 {
+                    continue;
+                }
+                let lay = Layout::new(6, &mut rng, (qa + pa) % 2 == 0);
+                let letters: Vec<(u32, u32)> = (0..7).map(|i| (lay.lo(i), lay.hi(i))).collect();
+                // states: 0 init, 1 Q, 2 P, 3 acc, 4 sink; letters: 0 -> Q, 1 -> P, 2..4 the three adjacent letters,
+                // 5 and 6 always to the sink (so that the sink is every state's default and the intervals are explicit)
+                let row = |bits: u32| -> Vec<usize> { vec![4, 4, if bits & 1 != 0 { 3 } else { 4 }, if bits & 2 != 0 { 3 } else { 4 }, if bits & 4 != 0 { 3 } else { 4 }, 4, 4] };
+                let delta = vec![vec![1, 2, 4, 4, 4, 4, 4], row(qa), row(pa), vec![4; 7], vec![4; 7]];
+                let finals = vec![false, false, false, true, false];
+                let d = AbsDfa { n: 5, letters, delta, finals };
+                dfa_records(&d, dflt_style, &mut rng, want_min, want_c14, &mut o1, &mut o2);
+            }
+        }
+    }
     // deep automata: a chain of 300 states on the first letter plus one extra state that enters the chain at two
     // different depths - hundreds of refinement rounds, blocks that are split again long after they were formed
     // (only the language is judged for these: the Nerode fixpoints are quadratic)
